@@ -305,7 +305,11 @@ class Propagator:
             # Evolving backward in time is not supported by all integrator.
             self.solver.start(qeye_like(self.props[0]), t)
             Uinv = self.solver.step(self.times[idx])
-            U = self._inv(Uinv)
+            # U(t, 0) = U(t, times[idx]) @ U(times[idx], 0)
+            U = self._inv(Uinv) @ self.props[idx]
+            # Leave the solver in a state consistent with the stored
+            # propagators: (t, U(t, 0)).
+            self.solver.start(U, t)
         return U
 
     def _inv(self, U):
